@@ -96,6 +96,9 @@ def sources(tier, seed, ctx):
             pre.update({'mtt': pm, 'r': min(s['r'], 2), 'fix': [], 'forbid': [], 'time_limit': 0})
             s['prelude'] = pre
     for j, s in enumerate(srcs):
+        if j % 5 == 4 and any(2 in row for row in s['mtt']) and not s.get('prelude'):
+            s['shared_model'] = True
+    for j, s in enumerate(srcs):
         if j % 4 == 2 and s['r'] >= 1 and not s['time_limit']:
             s['again'] = 1 + j % 5
         if j % 4 == 3 and s['r'] >= 1:
@@ -194,6 +197,15 @@ def _run(src):
     else:
         basis = [op(t) for t in src['basis']]
     model = TruthTableModel([[DontCare if v == 2 else bool(v) for v in row] for row in src['mtt']])
+    if src.get('shared_model'):
+        # ONE model object serves two finders: a normalised search (whatever it finds) runs first on it - the caller's
+        # model is an argument, not scratch space
+        try:
+            pre = CircuitFinderSat(model, max(1, src['r']), basis=basis, need_normalized=True)
+            pre.get_cnf()
+            pre.find_circuit(time_limit=src['time_limit'] or None)
+        except Exception:
+            pass
     case = {'kind': 'synth', 'n': src['n'], 'm': src['m'], 'mtt': src['mtt'], 'r': src['r'], 'basis': src['basis'], 'norm': src['norm'],
             'fix': src['fix'], 'forbid': src['forbid'], 'result': '', 'src': src}
     try:
